@@ -45,7 +45,7 @@ CHECKS = {
  "C12": ("fault_enumeration", "deterministic simulation with stored-byte fault injection: all single-bit flips of small trees, seeded header-biased flips, overwrites, truncations, garbage on copies of a closed database; Open/Get/Fold/sequential reader judged",
          "Right value or error, or a whole earlier prefix state (indistinguishable from a torn tail); never foreign bytes, unknown keys, panics or hangs.",
          TB + " One known finding (truncation of an older file exactly at a record boundary) is recorded in known_findings.json.", "DESIGN.md 4 C12"),
- "C13": ("exploration", SEQ + "unsynced-bytes invariants of the journalled disk model evaluated at every return (Always / Threshold / Sync batch / Sync() / Close() / rotation)",
+ "C13": ("exploration", SEQ + "unsynced-bytes invariants of the journalled disk model evaluated at every return (Always / Threshold / Sync batch / Sync() / Close() / rotation); a fifth of the runs: several concurrent callers under the seeded scheduler, judged per call on the journal",
          "Every SyncStrategy x BytesPerSync x BatchOptions.Sync x FileIOType over rotating, batching, restarting sequences.",
          TB + " For mmap, flushed means covered by a later msync.", "DESIGN.md 4 C13"),
  "C14": ("exploration", SEQ + "differential: one program under 2..4 configurations on separate simulated disks with the same simulated clock; transcripts (and bytes when the layout is equal) identical",
